@@ -8,11 +8,16 @@
                       metadata in one atomic batch, then individual pruning deletes.
    Variant "direct" = the code before the fix: every substate put/delete/delete_range is its
                       own write, then one batch with tree nodes + metadata.  TLC shows that this
-                      variant violates Consistent (kept as a negative control).                *)
+                      variant violates Consistent (kept as a negative control).
+   Variant "prunefirst" = the pruning deletes issued BEFORE the atomic batch: TLC shows that this
+                      violates TreeIntact (second negative control).
+   `trees` = the versions whose Merkle tree nodes are all present in the node column family.
+   The batch adds the complete tree of the new version; pruning deletes the stale parts of the
+   parent version (after which the parent version's tree can no longer be walked).             *)
 EXTENDS SubstateStore
 CONSTANT Variant, MaxCommits
-VARIABLES sub, meta, prog, pending, commits
-mvars == <<sub, meta, prog, pending, commits, db>>
+VARIABLES sub, meta, prog, pending, commits, trees
+mvars == <<sub, meta, prog, pending, commits, trees, db>>
 
 \* individual substate writes of an update, in the order the code issues them
 RECURSIVE PartSteps(_, _, _)
@@ -31,15 +36,17 @@ DirectSteps(upd, ps) ==
            rest == DirectSteps(upd, Tail(ps))
            mine == (IF upd[p][1] = "r" THEN <<<<"delrange", p, 0, 0>>>> ELSE <<>>) \o PartSteps(p, upd[p], KeySeq)
        IN mine \o rest
-Program(upd) ==
-  IF Variant = "batch" THEN <<<<"batch-all", 0, 0, 0>>, <<"prune", 0, 0, 0>>>>
-  ELSE DirectSteps(upd, SortedSeq(Parts)) \o <<<<"batch-meta", 0, 0, 0>>, <<"prune", 0, 0, 0>>>>
+\* pv = the parent version (the version recorded when the commit starts): what pruning removes
+Program(upd, pv) ==
+  IF Variant = "batch" THEN <<<<"batch-all", 0, 0, 0>>, <<"prune", pv, 0, 0>>>>
+  ELSE IF Variant = "prunefirst" THEN <<<<"prune", pv, 0, 0>>, <<"batch-all", 0, 0, 0>>>>
+  ELSE DirectSteps(upd, SortedSeq(Parts)) \o <<<<"batch-meta", 0, 0, 0>>, <<"prune", pv, 0, 0>>>>
 
 MInit == /\ db = EmptyDb /\ sub = EmptyDb /\ meta = <<0, EmptyDb>> /\ prog = <<>>
-         /\ commits = 0 /\ pending = [p \in Parts |-> NoUpd]
+         /\ commits = 0 /\ pending = [p \in Parts |-> NoUpd] /\ trees = {}
 Begin(upd) == /\ prog = <<>> /\ commits < MaxCommits
-              /\ prog' = Program(upd) /\ pending' = upd /\ commits' = commits + 1
-              /\ UNCHANGED <<sub, meta, db>>
+              /\ prog' = Program(upd, meta[1]) /\ pending' = upd /\ commits' = commits + 1
+              /\ UNCHANGED <<sub, meta, db, trees>>
 Step == /\ prog # <<>>
         /\ LET s == Head(prog) IN
              /\ sub' = CASE s[1] = "put" -> [sub EXCEPT ![s[2]][s[3]] = s[4]]
@@ -48,10 +55,13 @@ Step == /\ prog # <<>>
                          [] OTHER -> sub
              /\ meta' = IF s[1] \in {"batch-all", "batch-meta"} THEN <<meta[1] + 1, Apply(meta[2], pending)>> ELSE meta
              /\ db' = IF s[1] \in {"batch-all", "batch-meta"} THEN Apply(db, pending) ELSE db
+             /\ trees' = CASE s[1] \in {"batch-all", "batch-meta"} -> trees \cup {meta[1] + 1}
+                           [] s[1] = "prune" -> trees \ {s[2]}
+                           [] OTHER -> trees
         /\ prog' = Tail(prog)
         /\ UNCHANGED <<pending, commits>>
 \* the process stops; on reopen only the durable state is left
-Crash == /\ prog # <<>> /\ prog' = <<>> /\ UNCHANGED <<sub, meta, pending, commits, db>>
+Crash == /\ prog # <<>> /\ prog' = <<>> /\ UNCHANGED <<sub, meta, pending, commits, db, trees>>
 MNext == (\E upd \in Updates : Begin(upd)) \/ Step \/ Crash
 MSpec == MInit /\ [][MNext]_mvars
 
@@ -59,4 +69,6 @@ MSpec == MInit /\ [][MNext]_mvars
 \* the recorded root describes exactly the substates held, and the version counts the commits applied
 Consistent == prog = <<>> => (meta[2] = sub)
 PreOrPost == prog = <<>> => (sub = db /\ meta[2] = db)
+\* ... and the tree of the recorded version can be walked from its root (proofs, the next commit)
+TreeIntact == prog = <<>> => (meta[1] = 0 \/ meta[1] \in trees)
 =============================================================================
